@@ -7,6 +7,7 @@ import (
 	"fmt"
 	"os"
 	"runtime"
+	"runtime/debug"
 	"sort"
 
 	"verifharness/core"
@@ -39,6 +40,7 @@ func main() {
 		fmt.Fprintf(os.Stderr, "usage: vcheck <ID> <quick|thorough> | vcheck <ID> --replay <file>\nproperties: %v\n", ids)
 		os.Exit(2)
 	}
+	debug.SetGCPercent(400)
 	id := os.Args[1]
 	if id == "worker" {
 		workerMain(os.Args[2:])
